@@ -150,6 +150,241 @@ def wl_faults(ctx, rng, i):
         ctx.sample({"version": ver, "type": t, "base": o, "faults_applied": n})
 
 
+EXTRA_VALUES = [10 ** 400, -(10 ** 400), 2 ** 63, 1e308, -1e-320, "\u0000", "a" * 70000, [[]], [{}], {"": None}, {"extension_type": "toplevel-property-extension"},
+                {"extension_type": "property-extension"}, {"extension_type": "new-sdo"}, "toplevel-property-extension", 0.0, -0.0]
+
+
+def nested(depth, leaf, kind):
+    v = leaf
+    for j in range(depth):
+        k = kind if kind != "mixed" else ("list" if j % 2 else "dict")
+        v = [v] if k == "list" else {"a": v}
+    return v
+
+
+def ext_faults(ver, rng):
+    """odd values for the raw `extensions` argument, which is inspected before it is cleaned"""
+    m = M.model(ver)
+    reg = sorted(m.extensions)
+    edef = "extension-definition--d83fce45-ef58-4c6c-a3f4-1fbc32e98c6e"
+    et = rng.choice(["toplevel-property-extension", "property-extension", "new-sdo", "new-sco", "new-sro", 5, None, ["x"], {"a": 1}, ""])
+    body = rng.choice([{}, {"x_a": 1}, {"a": [1]}, {"extension_type": et}, {"extension_type": et, "foo": "bar"}])
+    body = dict(body)
+    if rng.random() < 0.7:
+        body["extension_type"] = et
+    key = rng.choice(reg + [edef, edef, "x-unregistered-ext", "", "extension-definition--bad"])
+    if rng.random() < 0.3:
+        return {edef: {"extension_type": "property-extension", "x_a": 1}}        # well formed: what follows the extensions check is reached
+    out = {key: body}
+    if rng.random() < 0.3:
+        out[rng.choice(reg + [edef])] = rng.choice([{}, 5, None, {"extension_type": "toplevel-property-extension"}, {"extension_type": "property-extension", "v": 1}])
+    return out
+
+
+def wl_multi(ctx, rng, i):
+    """Several property values replaced / removed at once, incl. the raw extensions argument."""
+    ver, bname = BASES[i % len(BASES)]
+    g = ObjGen(rng, ver, hostile=False, ts_max_digits=6, openvocab_custom=False)
+    t, o = make_base(g, ver, bname, rng.choice(["max", "random", "random"]), granular=False)
+    if validator.validate(o, ver):
+        ctx.skip("generator error")
+        return
+    m = M.model(ver)
+    reg0 = registry_snapshot()
+    import copy
+    for rep in range(12):
+        oo = copy.deepcopy(o)
+        applied = []
+        if ver == "2.1" and m.types[t]["cat"] == "sco" and rng.random() < 0.4:
+            oo.pop("id", None)            # the identifier is then computed from the (faulted) contributing properties
+            applied.append("remove id")
+        for _ in range(rng.choice([2, 2, 3, 4])):
+            try:
+                sl, objects = corrupt.slots(ver, oo)
+            except Exception:
+                break
+            r = rng.random()
+            if r < 0.2:
+                path, tbl, section = rng.choice(objects)
+                host = corrupt.get(oo, path)
+                if isinstance(host, dict):
+                    host["extensions"] = ext_faults(ver, rng)
+                    applied.append("%s.extensions:=odd" % ".".join(map(str, path)))
+                continue
+            if not sl:
+                break
+            s_ = rng.choice(sl)
+            try:
+                v = corrupt.get(oo, s_.path)
+            except Exception:
+                continue
+            if r < 0.4:
+                try:
+                    corrupt.delp(oo, s_.path)
+                    applied.append("remove %s" % ".".join(map(str, s_.path)))
+                except Exception:
+                    pass
+                continue
+            if s_.kind["k"] in ("int", "float") and r < 0.7:
+                nv, lab = rng.choice([10 ** 400, -(10 ** 400), 2 ** 63, 2 ** 53 + 1, 1e308, -1e308, 5e-324]), "numeric-extreme"
+            elif r < 0.6:
+                nv, lab = copy.deepcopy(rng.choice(corrupt.JUNK)), "junk"
+            elif r < 0.75:
+                nv, lab = copy.deepcopy(rng.choice(EXTRA_VALUES)), "extra"
+            else:
+                try:
+                    ks = corrupt.kind_specific(ver, s_, v, m)      # written for valid current values; v may already be faulted
+                except Exception:
+                    ks = []
+                if not ks:
+                    continue
+                lab, nv = rng.choice(ks)
+            try:
+                corrupt.setp(oo, s_.path, nv)
+                applied.append("%s:=%s" % (".".join(map(str, s_.path)), lab))
+            except Exception:
+                pass
+        if not applied:
+            continue
+        try:
+            json.dumps(oo)
+        except Exception:
+            continue
+        for rname, fn in routes(ver, t, oo):
+            observe(ctx, "%s %s multi-fault [%s] via %s" % (ver, t, "; ".join(applied), rname), fn,
+                    {"version": ver, "type": t, "faults": applied, "route": rname, "input": oo})
+        ctx.nontrivial(ver, t, tuple(a.split(":=")[-1][:20] for a in applied), rep)
+        ctx.count("multi_faults")
+        ctx.see("multi-fault sizes", len(applied))
+    check_state(ctx, reg0, {"version": ver, "type": t, "workload": "multi"})
+
+
+DEPTHS = [60, 150, 330, 700, 900]
+
+
+def wl_deep(ctx, rng, i):
+    """Deeply nested values (decodable by this interpreter's json module from this call depth) in every slot position."""
+    import copy
+    import stix2
+    ver, bname = BASES[i % len(BASES)]
+    g = ObjGen(rng, ver, hostile=False, ts_max_digits=6, openvocab_custom=False)
+    t, o = make_base(g, ver, bname, "random", granular=False)
+    if validator.validate(o, ver):
+        ctx.skip("generator error")
+        return
+    reg0 = registry_snapshot()
+    sl, objects = corrupt.slots(ver, o)
+    targets = [("slot", s_.path) for s_ in rng.sample(sl, min(4, len(sl)))]
+    targets += [("custom", path + ("x_deep",)) for path, tbl, section in rng.sample(objects, min(2, len(objects)))]
+    targets += [("extension", ("extensions",)), ("whole", ())]
+    for what, path in targets:
+        depth = rng.choice(DEPTHS)
+        kind = rng.choice(["list", "dict", "mixed"])
+        leaf = rng.choice([1, "x", None, {"type": "identity"}, {"extension_type": "toplevel-property-extension"}])
+        v = nested(depth, leaf, kind)
+        oo = copy.deepcopy(o)
+        if what == "whole":
+            oo = nested(depth, oo, kind) if rng.random() < 0.5 else {"type": "bundle", "id": "bundle--d83fce45-ef58-4c6c-a3f4-1fbc32e98c6e", "objects": nested(depth, oo, "list")}
+        elif what == "extension":
+            oo["extensions"] = {rng.choice(["extension-definition--d83fce45-ef58-4c6c-a3f4-1fbc32e98c6e", "x-deep-ext", "archive-ext"]): v if isinstance(v, dict) else {"a": v}}
+        else:
+            try:
+                corrupt.setp(oo, path, v)
+            except Exception:
+                continue
+        try:
+            text = json.dumps(oo)
+            json.loads(text)
+        except (RecursionError, ValueError):
+            ctx.count("deep_not_decodable_here")
+            continue
+        w = {"version": ver, "type": t, "where": "%s %s" % (what, ".".join(map(str, path))), "depth": depth, "nesting": kind, "leaf": leaf}
+        rs = [("parse-text/strict", lambda: stix2.parse(text)), ("parse-text/custom", lambda: stix2.parse(text, allow_custom=True)),
+              ("parse-dict/versioned/custom", lambda: stix2.parse(oo, allow_custom=True, version=ver))]
+        if isinstance(oo, dict) and M.model(ver).types.get(t, {}).get("cat") == "sco" or ver == "2.0" and t in M.model("2.0").types and M.model("2.0").types[t].get("cat") == "sco":
+            rs.append(("parse_observable/custom", lambda: stix2.parse_observable(oo, allow_custom=True, version=ver)))
+            rs.append(("parse_observable-text", lambda: stix2.parse_observable(text, version=ver)))
+        cls = cls_for(ver, t)
+        if cls is not None and isinstance(oo, dict) and what != "whole":
+            rs.append(("constructor/custom", lambda: cls(allow_custom=True, **oo)))
+            rs.append(("constructor/strict", lambda: cls(**oo)))
+        for rname, fn in rs:
+            r = observe(ctx, "%s %s nested %d deep (%s) at %s via %s" % (ver, t, depth, kind, w["where"], rname), fn, dict(w, route=rname))
+            ctx.see("deep outcomes", r)
+        ctx.nontrivial("deep", ver, t, what, depth, kind)
+        ctx.count("deep_inputs")
+        ctx.see("depths", depth)
+    check_state(ctx, reg0, {"version": ver, "type": t, "workload": "deep"})
+
+
+def wl_shadow(ctx, rng, i):
+    """A failed parse of a not yet registered type leaves nothing behind: once the type is registered, it parses to its class."""
+    import stix2
+    from stix2 import properties as P
+    ver = VERSIONS[i % 2]
+    mod = stix2.v20 if ver == "2.0" else stix2.v21
+    kind = ["object", "observable"][(i // 2) % 2] if ver == "2.1" else "object"     # 2.0 observables have no top-level form
+    name = "x-stixmon-c17-%s-%d-%s" % (ctx.seed, i, kind[:3])
+    uid = "d83fce45-ef58-4c6c-a3f4-1fbc32e98c6e"
+    obj = {"type": name, "id": "%s--%s" % (name, uid), "pname": "v"}
+    if kind == "object":
+        obj.update({"created": "2020-01-01T00:00:00.000Z", "modified": "2020-01-01T00:00:00.000Z"})
+    if ver == "2.1":
+        obj["spec_version"] = "2.1"
+    w = {"version": ver, "kind": kind, "type": name, "object": obj}
+    pre = rng.choice(["strict", "lenient", "bundle", "store", "strict+junk"])
+    bad = dict(obj)
+    if pre == "strict+junk":
+        bad["pname"] = 5
+    reg0 = registry_snapshot()
+    try:
+        with warnings.catch_warnings():
+            warnings.simplefilter("ignore")
+            if pre in ("strict", "strict+junk"):
+                stix2.parse(bad, version=ver)
+            elif pre == "lenient":
+                stix2.parse(bad, allow_custom=True, version=ver)
+            elif pre == "bundle":
+                stix2.parse({"type": "bundle", "id": "bundle--" + uid, "objects": [bad]}, version=ver)
+            else:
+                stix2.MemoryStore(allow_custom=False).add(bad, version=ver)
+        first = "returned"
+    except family():
+        first = "refused"
+    except Exception as e:
+        first = "escape"
+        ctx.violation("escape:%s@%s" % (type(e).__name__, where_raised(e)), "parse of unregistered type raised %s" % type(e).__name__, dict(w, pre=pre))
+    ctx.ev()
+    if first == "refused":
+        check_state(ctx, reg0, dict(w, pre=pre))
+    if kind == "object":
+        @mod.CustomObject(name, [("pname", P.StringProperty(required=True))])
+        class Late(object):
+            pass
+    else:
+        if ver == "2.1":
+            @mod.CustomObservable(name, [("pname", P.StringProperty(required=True))], ["pname"])
+            class Late(object):
+                pass
+        else:
+            @mod.CustomObservable(name, [("pname", P.StringProperty(required=True))])
+            class Late(object):
+                pass
+    try:
+        got = stix2.parse(obj, version=ver)
+        ok = isinstance(got, Late)
+        how = type(got).__name__
+    except Exception as e:
+        ok, how = False, "%s: %s" % (type(e).__name__, str(e)[:120])
+    ctx.ev()
+    ctx.count("shadow_histories")
+    ctx.see("shadow pre-steps", pre + "/" + first)
+    ctx.nontrivial("shadow", ver, kind, pre)
+    if not ok:
+        ctx.violation("failed-parse-left-state-behind", "after a %s parse of the unregistered type %s (%s), registering it does not make it parse to its class: %s" % (pre, name, first, how),
+                      dict(w, pre=pre, first=first, outcome=how))
+
+
 def junk(rng, depth):
     r = rng.random()
     if depth <= 0 or r < 0.4:
@@ -248,6 +483,20 @@ def targeted_cases():
         o = dict(od20)
         o["objects"] = objs
         cases.append(("observed-data", "objects=%r" % (objs,), o))
+    # marking-definition: definition_type x definition x extensions jointly (its constructor and constraints read all three)
+    ABSENT = object()
+    edef = "extension-definition--d83fce45-ef58-4c6c-a3f4-1fbc32e98c6e"
+    for spec in ("2.1", "2.0"):
+        for dt in (ABSENT, "tlp", "statement", "x-unknown", 5, None):
+            for df in (ABSENT, {"tlp": "white"}, {"statement": "s"}, {}, 5, None, "x"):
+                for ext in (ABSENT, {edef: {"extension_type": "property-extension", "x_a": 1}}, {}):
+                    o = {k: v for k, v in md.items() if k not in ("definition_type", "definition")}
+                    if spec == "2.0":
+                        del o["spec_version"]
+                    for k, v in (("definition_type", dt), ("definition", df), ("extensions", ext)):
+                        if v is not ABSENT:
+                            o[k] = v
+                    cases.append(("marking-definition", "%s joint %s" % (spec, json.dumps({k: o.get(k, "<absent>") for k in ("definition_type", "definition", "extensions")})[:90]), o))
     # a type-less / id-less / unknown-type object with odd extensions (unregistered-type shortcut in dict_to_stix2)
     for ext in J + [{"extension-definition--x": 5}, {"extension-definition--x": {"extension_type": 5}}, {"extension-definition--x": None}, {"a": "b"}]:
         cases.append(("x-unknown-type", "extensions=%r" % (ext,), {"type": "x-unknown-type", "id": "x-unknown-type--d83fce45-ef58-4c6c-a3f4-1fbc32e98c6e", "extensions": ext}))
@@ -323,6 +572,9 @@ WORKLOADS = [
     Workload("faults", wl_faults, quick=lambda: len(BASES), thorough=lambda: len(BASES) * 6, exhaustive=True),
     Workload("junk", wl_junk, quick=120, thorough=6000),
     Workload("targeted", wl_targeted, quick=lambda: len(TARGETED), thorough=lambda: len(TARGETED), exhaustive=True),
+    Workload("multi", wl_multi, quick=lambda: len(BASES) * 2, thorough=lambda: len(BASES) * 40),
+    Workload("deep", wl_deep, quick=lambda: len(BASES), thorough=lambda: len(BASES) * 10),
+    Workload("shadow", wl_shadow, quick=40, thorough=400),
 ]
 
 
